@@ -57,11 +57,6 @@ add("KF-pad-jvp-nonlinear-modes", ["C02", "C09", "C15"],
      {"prim": "pad", "mode": ["fwd"], "kw": {"mode": {"__re__": "str:(maximum|minimum|median)"}}, "symptom": ["wrong_value"]}],
     case("pad", [A(5), 1, "maximum"], tags=["unsupported_mode"]), witness_mode="fwd")
 
-add("KF-norm-complex", ["C04", "C05", "C09"],
-    "np.linalg.norm of a complex array: the VJP multiplies by x instead of conj(x) (conjugate of the documented convention) and the JVP returns a complex tangent for the real output",
-    {"prim": "norm", "ns": "linalg", "args": {"0": {"__re__": "(c.*|z|nz)"}}, "symptom": ["wrong_value", "wrong_kind", "wrong_shape", "not_adjoint", "nan"]},
-    case("norm", [C(4)], ns="linalg"))
-
 add("KF-cholesky-complex", ["C09"],
     "np.linalg.cholesky of a complex Hermitian matrix: the rule symmetrises with a plain transpose (no conjugate) and is wrong for complex input",
     {"prim": "cholesky", "args": {"0": {"__re__": "c.*"}}, "symptom": ["wrong_value", "not_adjoint"]},
@@ -92,11 +87,6 @@ from vf.common import enc  # noqa
 
 c1 = onp.array([True, False, True, False])
 c2 = onp.array([True, False, False, False])
-add("KF-select-int-choice-dtype", ["C06", "C02", "C04", "C05", "C09"],
-    "autograd.numpy.select rebuilds its result from the selected elements, so the result dtype depends on the data: when no element of a float choice is selected (all taken from an integer choice or from the integer default 0) the result - and the forward-mode tangent - is an integer array where NumPy returns float64",
-    [{"engine": "values", "family": "wrapper", "fn": "select", "symptom": ["primal_mismatch"]}, {"prim": "select", "form": "selectfun", "symptom": ["wrong_kind", "wrong_dtype", "primal_mismatch", "wrong_shape"]}],
-    {"C06": {"kind": "wrapper", "form": {"name": "select", "args": enc([[c1, c2], [onp.array([1, -3, 2, 5]), onp.array([0.5, 1.5, 2.5, 3.5])]]), "kw": enc({}), "tr": None, "prop": False}},
-     "default": P.encode_case(case("select", [[onp.zeros(4, dtype=bool)], [A(4)]], argnum=0, form="selectfun"))})
 
 # ---------------------------------------------------------------- repaired defects ('fix:' commits in /repo)
 cc = onp.array([[True, False, True], [False, False, True]])
@@ -131,6 +121,10 @@ fixed("FX-diff-n-exceeds-length", ["C05"], "bf307a4", "np.diff(x, n) with n >= t
 F.append({"id": "FX-assert-guards", "status": "fixed", "properties": ["C15"], "commit": "7077fba", "what": "fixed: property=C15 7077fba the unsupported-mode guard of np.pad's VJP and the leading-dimension guard of np.broadcast_to's VJP were `assert`s: under `python -O` a wrong gradient was returned silently (observed by the C15 sub-run under python -O; no separate witness: that sub-run re-executes the whole unsupported-option catalogue on every run)", "match": {"never": "fixed entries suppress nothing"}})
 fixed("FX-bool-list-index", ["C11"], "9518a4b", "x[[True, False, True]] (a Python list of booleans) was converted to the integer index [1, 0, 1]: cotangent scattered to the wrong positions", {"kind": "index", "x": enc(A(3)), "idx": enc([True, False, True]), "cls": "bool_list", "wseed": 1})
 fixed("FX-jvp-chooser-numpy-int-axis", ["C02"], "9eededa", "forward-mode max/min/amax/amin with axis=np.int64(k): NaN / wrongly shaped tangent", case("max", [onp.cos(A(3, 4) * 7.3)], {"axis": onp.int64(1)}))
+fixed("FX-norm-complex", ["C09", "C05", "C04"], "b7b976c", "linalg.norm of complex input: VJP returned the conjugate of the documented convention, JVP a complex tangent for the real output", case("norm", [C(4)], ns="linalg"))
+fixed("FX-select-dtype", ["C06", "C02", "C05"], "40f09be", "autograd.numpy.select returned an integer array (and integer tangents) when no element of a traced float choice was selected",
+      {"C06": {"kind": "wrapper", "form": {"name": "select", "args": enc([[c1, c2], [onp.array([1, -3, 2, 5]), onp.array([0.5, 1.5, 2.5, 3.5])]]), "kw": enc({}), "tr": None, "prop": False}},
+       "default": P.encode_case(case("select", [[onp.zeros(4, dtype=bool)], [A(4)]], argnum=0, form="selectfun"))})
 fixed("FX-where-jvp-broadcast", ["C05", "C02"], "423a953", "forward-mode np.where returned a tangent with the branch's shape/kind instead of the output's", case("where", [cc, A(3), A(2, 2, 3)], argnum=1), witness_mode="fwd")
 
 out = {"_comment": "Known findings: genuine defects of HIPS/autograd that are recorded rather than repaired (status open) and defects repaired by a 'fix:' commit (status fixed; fixed entries suppress nothing - their witnesses are re-run on every check and a failing one is an ordinary VIOLATION). `match` is a conjunction over fields of the case signature (lists = any of; {__re__}: regex; {__has__}: list membership); never a seed, hash or random value. Read-only at run time.", "findings": F}
